@@ -128,6 +128,12 @@ def run(model, R):
             continue
         own = guard_of(call)
         extra = [(t, pol) for t, pol in pc if not (chain(strip_not(t)[0]) == [cv, own] and pol != strip_not(t)[1])]
+        # "if <the collection the edges are generated from>:" is vacuous - an empty collection draws nothing either way
+        iterated = set()
+        for a_ in call.args:
+            if isinstance(a_, (ast.GeneratorExp, ast.ListComp)) and len(a_.generators) == 1 and isinstance(a_.generators[0].iter, ast.Name):
+                iterated.add(a_.generators[0].iter.id)
+        extra = [(t, pol) for t, pol in extra if not (pol and isinstance(t, ast.Name) and t.id in iterated)]
         kind_ = chain(call.func)[1]
         R.decided(not extra, 'DRAWING', func, call, f'{kind_} statement is reached for every concept (apart from its own label test)',
                   'no other condition / early continue before it', ' and '.join(('' if pol else 'not ') + src(t) for t, pol in extra),
@@ -187,10 +193,12 @@ def run(model, R):
             continue
         R.check(g is None, 'DRAWING', func, call, 'cover edges unconditional', 'not guarded', f'guarded by {g}')
     good = [f for f in fams if f and f[0] in ('lower', 'upper')]
-    R.check(len(good) == 1, 'DRAWING', func, loop, 'exactly one orientation family of cover edges',
-            'edges to lower_neighbors only (or mirrored to upper_neighbors only)', f'{[f[0] for f in good]}: every cover would be drawn '
-            + ('twice' if len(good) > 1 else 'never'))
-    if len(good) == 1:
+    resolved = not any(f is None for f in fams)     # an unresolved edge statement was reported above as not judged
+    if resolved:
+        R.check(len(good) == 1, 'DRAWING', func, loop, 'exactly one orientation family of cover edges',
+                'edges to lower_neighbors only (or mirrored to upper_neighbors only)', f'{[f[0] for f in good]}: every cover would be drawn '
+                + ('twice' if len(good) > 1 else 'never'))
+    if len(good) == 1 and resolved:
         R.check(good[0][0] == 'lower', 'DRAWING', func, loop, 'drawn from a concept to each of its lower neighbours',
                 'lower_neighbors', good[0][0] + '_neighbors')
     # the wrapper forwards the callbacks
@@ -198,9 +206,10 @@ def run(model, R):
     calls = [n for n in walk(g.body) if isinstance(n, ast.Call) and chain(n.func) and chain(n.func)[-1] == 'lattice']
     ok = False
     if len(calls) == 1:
-        kws = {k.arg: k.value for k in calls[0].keywords}
+        kws = model.bind(g, calls[0]) or {k.arg: k.value for k in calls[0].keywords}
+        first = kws.get(func.params[0]) if func.params[0] in kws else (calls[0].args[0] if calls[0].args else None)
         ok = (name_is(kws.get('make_object_label'), 'make_object_label') and name_is(kws.get('make_property_label'), 'make_property_label')
-              and calls[0].args and name_is(calls[0].args[0], g.params[0]))
+              and name_is(first, g.params[0]))
     R.check(ok, 'DRAWING', g, calls[0] if calls else g.node, 'Lattice.graphviz forwards both label callbacks unchanged',
             'visualize.lattice(self, ..., make_object_label=make_object_label, make_property_label=make_property_label)',
             src(calls[0])[:160] if calls else 'no call')
